@@ -179,6 +179,16 @@ func (s verifCLIStub) Package(info *nfpm.Info, w io.Writer) error {
 }
 func (verifCLIStub) ConventionalFileName(*nfpm.Info) string { return "conv.stub" }
 
+// verifCLIStub2 is a second registered format: a target named after it must not
+// take over when another packager is asked for explicitly.
+type verifCLIStub2 struct{}
+
+func (verifCLIStub2) Package(info *nfpm.Info, w io.Writer) error {
+	w.Write([]byte("other"))
+	return nil
+}
+func (verifCLIStub2) ConventionalFileName(*nfpm.Info) string { return "conv.stb2" }
+
 // Verif_C15_CLITarget: `nfpm package` writes exactly the requested file, or the
 // conventional name inside the target directory (current directory for an
 // empty target), infers the packager from the extension only when none is
@@ -197,10 +207,19 @@ func Verif_C15_CLITarget() {
 	}
 	fail := v.NondetBool("package.fails")
 	nfpm.RegisterPackager("stub", verifCLIStub{fail: fail})
+	nfpm.RegisterPackager("stb2", verifCLIStub2{})
 	packager := []string{"", "stub"}[v.NondetChoice("packager", 2)]
-	kind := v.NondetChoice("target", 4)
+	kind := v.NondetChoice("target", 5)
 	target, want := "", ""
+	wantContent := "partial"
 	switch kind {
+	case 4: // a file named after ANOTHER registered format
+		target = outDir + "/x.stb2"
+		want = target
+		if packager == "" {
+			wantContent = "other" // inferred from the extension
+			fail = false
+		}
 	case 0: // existing directory
 		target, want = outDir, outDir+"/conv.stub"
 	case 1: // a file with the packager's extension
@@ -235,8 +254,34 @@ func Verif_C15_CLITarget() {
 		return
 	}
 	v.Assert(err == nil, "cli-succeeds")
-	v.Assert(models.Exists(want) && string(models.FileContent(want)) == "partial", "cli-writes-exactly-the-requested-target")
+	v.Assert(models.Exists(want) && string(models.FileContent(want)) == wantContent, "cli-writes-exactly-the-requested-target")
 }
 
 // Verif_C06_CLI: the command-line clause of C06 (non-nil error, no file left at the target) is the failing branch of the CLI harness.
 func Verif_C06_CLI() { Verif_C15_CLITarget() }
+
+// Verif_C17_RequiredKeys: the schema generator marks a key required when its
+// json tag has no omitempty. Only the keys the documentation calls mandatory
+// (name, arch, version; dst of a contents entry) may be required: every other
+// key may be absent from a configuration that the parser accepts and the
+// packagers build (a dir or ghost entry has no src, for instance).
+func Verif_C17_RequiredKeys() {
+	v.Reach("C17.required.ran")
+	mandatory := map[string][]string{"Info": {"name", "arch", "version"}, "Content": {"dst"}}
+	ok := true
+	for st, keys := range v.SchemaRequired {
+		for _, k := range keys {
+			allowed := false
+			for _, m := range mandatory[st] {
+				if m == k {
+					allowed = true
+				}
+			}
+			if !allowed {
+				ok = false
+				v.Observe("required.but.optional", st+"."+k)
+			}
+		}
+	}
+	v.Assert(ok, "schema-requires-only-the-documented-mandatory-keys")
+}
